@@ -4,19 +4,23 @@ import Glom.Model.C16Env
 /-
   C16 driver.
 
-  case: {"spec":GSpec, "runs":[[V…]…], "impl":[Obs…]}      (one spec object, evaluated on each run in turn)
+  case: {"specs":[GSpec…], "shared":[V…], "targets":[[V…]…], "evals":[[i,j]…], "impl":[EvalObs…]}
+         a HISTORY in one process: evaluation n is glom(target object j, Group object i);
+         "shared"[n] is an object that occurs at several places of the targets ({"sh":n})
   V:     null | {"b":…} | {"i":…} | {"s":…} | {"fbits":"<uint64>"} | {"sent":"SKIP"|"STOP"} | {"obj":n}
-         | {"id":n}  (= id(container n)) | {"l":[V…]} | {"t":[V…]} | {"d":[[V,V]…]}
-  Fn:    {"fn":name, …args}
+         | {"id":n}  (= id(container n)) | {"l":[V…]} | {"t":[V…]} | {"d":[[V,V]…]} | {"sh":n}
+  Fn:    {"fn":name, …args} | {"fn":"t","ops":[TOp…]} | {"fn":"cls","c":"type"|"str"|"bool"|"int"}
+  TOp:   {"op":"item","k":V} | {"op":"add","v":V} | {"op":"mul","n":int} | {"op":"or","v":V} | {"op":"mod","n":nat}
   GSpec: {"k":"dict","id":n,"kid":m,"key":Fn,"sub":GSpec} | {"k":"list","id":n,"f":Fn}
-         | {"k":"agg","oid":n,"a":{"agg":name,"f":Fn?}} | {"k":"fn","f":Fn}
+         | {"k":"agg","oid":n,"a":{"agg":name,"f":Fn?,"size":n?,"tbl":[n…]?}} | {"k":"fn","f":Fn}
          | {"k":"limit","oid":n,"n":k,"sub":GSpec} | {"k":"nested","g":GSpec}
-  Obs:   {"ok":V} | {"err":cls}
+  EvalObs: {"ok":V | "err":cls, "after":[V…], "ident":bool}
 -/
 namespace Glom.C16.Driver
 open Lean Glom.C16
 
-partial def vOfJson (j : Json) : Except String V :=
+partial def vOfJson (sh : Array V) (j : Json) : Except String V :=
+  let vOfJson := vOfJson sh
   match j with
   | .null => .ok .none
   | .obj _ =>
@@ -31,6 +35,10 @@ partial def vOfJson (j : Json) : Except String V :=
       if s == "SKIP" then .ok .skip else if s == "STOP" then .ok .stop else .error s!"bad sentinel {s}"
     else if let .ok n := j.getObjValAs? Nat "obj" then .ok (.obj n)
     else if let .ok n := j.getObjValAs? Nat "id" then .ok (idKey n)
+    else if let .ok n := j.getObjValAs? Nat "sh" then
+      match sh[n]? with
+      | some v => .ok v
+      | none => .error s!"bad shared index {n}"
     else if let .ok (.arr a) := j.getObjVal? "l" then do return .list (← a.toList.mapM vOfJson)
     else if let .ok (.arr a) := j.getObjVal? "t" then do return .tuple (← a.toList.mapM vOfJson)
     else if let .ok (.arr a) := j.getObjVal? "d" then do
@@ -54,11 +62,35 @@ partial def vToJson : V → Json
   | .tuple xs => Json.mkObj [("t", Json.arr (xs.map vToJson).toArray)]
   | .dict es => Json.mkObj [("d", Json.arr (es.map (fun e => Json.arr #[vToJson e.1, vToJson e.2])).toArray)]
 
+def arr (j : Json) : Except String (List Json) :=
+  match j with
+  | .arr a => .ok a.toList
+  | _ => .error s!"expected array, got {j.compress}"
+
+def topOfJson (j : Json) : Except String TOp := do
+  let name ← j.getObjValAs? String "op"
+  let val (k : String) : Except String V := do vOfJson #[] (← j.getObjVal? k)
+  match name with
+  | "item" => return .item (← val "k")
+  | "add" => return .add (← val "v")
+  | "mul" => return .mul (← j.getObjValAs? Int "n")
+  | "or" => return .bor (← val "v")
+  | "mod" => return .mod (← j.getObjValAs? Nat "n")
+  | n => throw s!"bad T op {n}"
+
 def fnOfJson (j : Json) : Except String Fn := do
   let name ← j.getObjValAs? String "fn"
   let nat (k : String) : Except String Nat := j.getObjValAs? Nat k
-  let val (k : String) : Except String V := do vOfJson (← j.getObjVal? k)
+  let val (k : String) : Except String V := do vOfJson #[] (← j.getObjVal? k)
   match name with
+  | "t" => return .texpr (← (← arr (← j.getObjVal? "ops")).mapM topOfJson)
+  | "cls" =>
+    match (← j.getObjValAs? String "c") with
+    | "type" => return .cls .type
+    | "str" => return .cls .str
+    | "bool" => return .cls .bool
+    | "int" => return .cls .int
+    | c => throw s!"bad class {c}"
   | "ident" => return .ident
   | "mod" => return .mod (← nat "n")
   | "item" => return .item (← val "k")
@@ -88,6 +120,11 @@ def aggOfJson (j : Json) : Except String Agg := do
   else if name == "sum" then return Agg.sum (← subFn j)
   else if name == "flatten" then return Agg.flatten (← subFn j)
   else if name == "merge" then return Agg.merge (← subFn j)
+  else if name == "sample" then
+    return Agg.sample (← j.getObjValAs? Nat "size") (← (← arr (← j.getObjVal? "tbl")).mapM (fun x => x.getNat?))
+  else if name == "cls_last" then return Agg.clsLast
+  else if name == "cls_count" then return Agg.clsCount
+  else if name == "unbound" then return Agg.unbound
   else throw s!"bad agg {name}"
 
 partial def specOfJson (j : Json) : Except String GSpec := do
@@ -119,39 +156,30 @@ partial def specOfJson (j : Json) : Except String GSpec := do
     return GSpec.nested g
   else throw s!"bad spec kind {k}"
 
-def obsOfJson (j : Json) : Except String Obs := do
-  if let .ok v := j.getObjVal? "ok" then return .ok (← vOfJson v)
-  else if let .ok c := j.getObjValAs? String "err" then return .err c
-  else throw s!"bad obs {j.compress}"
+def obsOfJson (j : Json) : Except String EvalObs := do
+  let res ← (if let .ok v := j.getObjVal? "ok" then do return Obs.ok (← vOfJson #[] v)
+    else if let .ok c := j.getObjValAs? String "err" then return Obs.err c
+    else throw s!"bad obs {j.compress}")
+  let after ← (← arr (← j.getObjVal? "after")).mapM (vOfJson #[])
+  let ident ← j.getObjValAs? Bool "ident"
+  return ⟨res, after, ident⟩
 
-def obsToJson : Obs → Json
-  | .ok v => Json.mkObj [("ok", vToJson v)]
-  | .err c => Json.mkObj [("err", c)]
-
-def arr (j : Json) : Except String (List Json) :=
-  match j with
-  | .arr a => .ok a.toList
-  | _ => .error s!"expected array, got {j.compress}"
+def obsToJson (o : EvalObs) : Json :=
+  let rest := [("after", Json.arr (o.after.map vToJson).toArray), ("ident", Json.bool o.ident)]
+  match o.res with
+  | .ok v => Json.mkObj (("ok", vToJson v) :: rest)
+  | .err c => Json.mkObj (("err", Json.str c) :: rest)
 
 def specTag : GSpec → String
   | .dict _ _ _ sub => "{" ++ specTag sub ++ "}"
   | .list .. => "[f]"
   | .agg _ .first => "First" | .agg _ .max => "Max" | .agg _ .min => "Min" | .agg _ .avg => "Avg"
   | .agg _ (.sum _) => "Sum" | .agg _ .count => "Count" | .agg _ (.flatten _) => "Flatten"
-  | .agg _ (.merge _) => "Merge"
+  | .agg _ (.merge _) => "Merge" | .agg _ (.sample ..) => "Sample" | .agg _ .clsLast => "clsLast"
+  | .agg _ .clsCount => "clsCount" | .agg _ .unbound => "unbound"
   | .fn _ => "f"
   | .limit _ _ sub => "Limit(" ++ specTag sub ++ ")"
   | .nested g => "Group(" ++ specTag g ++ ")"
-
-/-- a SKIP-producing bare function under a key level: the implementation orders such keys by
-    their first *value*; the reference (keys in order of first occurrence) does not cover it -/
-def skipLeafBelow (below : Bool) : GSpec → List V → Bool
-  | .fn f, its => below && its.any (fun x => isSkip (f.val x))
-  | .nested (.fn _), _ => below
-  | .nested (.nested _), _ => below
-  | .dict _ _ _ sub, its => skipLeafBelow true sub its
-  | .limit _ _ sub, its => skipLeafBelow below sub its
-  | _, _ => false
 
 /-- Max / Min over lists or tuples: Python compares them lexicographically, the model's
     `pyLt` covers ints and strings only -/
@@ -170,35 +198,69 @@ def keyUnsupported : GSpec → List V → Bool
   | .nested g, its => its.any (fun x => keyUnsupported g ((iterOf x).getD []))
   | _, _ => false
 
+/-- which classes of the generator a spec uses (for the histogram) -/
+def fnFeat : Fn → String
+  | .texpr _ => "T" | .cls _ => "C" | _ => ""
+
+def specFeat : GSpec → String
+  | .dict _ _ key sub => fnFeat key ++ specFeat sub
+  | .list _ f => fnFeat f
+  | .fn f => fnFeat f
+  | .agg _ (.sum f) | .agg _ (.flatten f) | .agg _ (.merge f) => fnFeat f
+  | .agg _ .clsLast | .agg _ .clsCount | .agg _ .unbound => "C"
+  | .limit _ _ sub => specFeat sub
+  | .nested g => specFeat g
+  | _ => ""
+
 def run (j : Json) : Except String Json := do
-  let spec ← specOfJson (← j.getObjVal? "spec")
-  let runs ← (← arr (← j.getObjVal? "runs")).mapM (fun r => do (← arr r).mapM vOfJson)
+  let specs ← (← arr (← j.getObjVal? "specs")).mapM specOfJson
+  -- shared objects: each may refer to earlier ones
+  let shared ← (← arr (← j.getObjVal? "shared")).foldlM (fun (acc : Array V) x => do return acc.push (← vOfJson acc x)) #[]
+  let targets ← (← arr (← j.getObjVal? "targets")).mapM (fun r => do (← arr r).mapM (vOfJson shared))
+  let evals ← (← arr (← j.getObjVal? "evals")).mapM (fun e => match e with
+    | .arr #[a, b] => do return ((← a.getNat?), (← b.getNat?))
+    | _ => throw s!"bad eval {e.compress}")
   let implObs ← (← arr (← j.getObjVal? "impl")).mapM obsOfJson
-  if runs.any (skipLeafBelow false spec) then
+  -- the (spec, items) pairs the history evaluates
+  let pairs := evals.filterMap (fun e => match specs[e.1]?, targets[e.2]? with
+    | some g, some its => some (g, its)
+    | _, _ => none)
+  if pairs.length != evals.length then throw "eval index out of range"
+  if pairs.any (fun p => !(noSkipBelow false p.1 p.2)) then
     return Json.mkObj [("skip", true), ("why", "SKIP-producing bare function under a key level")]
-  if runs.any (keyUnsupported spec) then
+  if pairs.any (fun p => keyUnsupported p.1 p.2) then
     return Json.mkObj [("skip", true), ("why", "tuple used as a bucket key")]
-  if runs.any (cmpUnsupported spec) then
+  if pairs.any (fun p => cmpUnsupported p.1 p.2) then
     return Json.mkObj [("skip", true), ("why", "Max/Min over sequences")]
-  let modelObs := runs.map (fun its => observe (groupEval spec its))
+  let modelObs := observeHistory specs targets evals
   let agree := modelObs == implObs
-  let holds := checkC16 spec runs implObs
-  let modelHolds := checkC16 spec runs modelObs
-  let wf := runs.all (wfRun spec)
-  let h1 := runs.all (stopFree false spec)
-  let h2 := runs.all (keysApart spec)
+  let holds := checkC16 specs targets evals implObs
+  let modelHolds := checkC16 specs targets evals modelObs
+  let wf := pairs.all (fun p => wfRun p.1 p.2)
+  let h1 := pairs.all (fun p => stopFree false p.1 p.2)
+  let ef := pairs.all (fun p => eventFree p.1 p.2)
+  let h2 := pairs.all (fun p => keysApart p.1 p.2)
+  let cov := pairs.all (fun p => !(wfRun p.1 p.2) || covered p.1 p.2)
+  -- the exact form of what the code computes (c16_exact), evaluated on the implementation
+  let exact := (pairs.zip implObs).all (fun po =>
+    !(wfRun po.1.1 po.1.2 && slotApart po.1.1 po.1.2) || po.2.res == .ok (implTop po.1.1 po.1.2))
   let shape :=
     if !h2 then "tree_key_collision"
-    else if runs.any (f9Shape spec) then "first_under_varying_key"
+    else if pairs.any (fun p => f9Shape p.1 p.2) then "first_under_varying_key"
     else ""
   let first := match modelObs with
-    | .ok _ :: _ => "ok"
-    | .err c :: _ => s!"err-{c}"
+    | ⟨.ok _, _, _⟩ :: _ => "ok"
+    | ⟨.err c, _, _⟩ :: _ => s!"err-{c}"
     | [] => "no-run"
+  let spec0 := specs.head?.getD default
+  let feat := String.join ((specs.map specFeat).map id)
+  let featTag := (if feat.contains 'T' then ":tarith" else "") ++ (if feat.contains 'C' then ":clsobj" else "") ++
+    (if specs.length > 1 then ":hist" else "")
   return Json.mkObj [("agree", agree), ("holds", holds), ("model_holds", modelHolds),
-    ("facts_wf", genWF), ("wf", wf), ("h1", h1), ("h2", h2), ("known_shape", shape),
+    ("facts_wf", genWF), ("wf", wf), ("h1", h1), ("event_free", ef), ("h2", h2), ("covered", cov),
+    ("exact", exact), ("known_shape", shape),
     ("model", Json.arr (modelObs.map obsToJson).toArray),
-    ("expected", Json.arr (runs.map (fun its => vToJson (valOfTop spec its))).toArray),
-    ("branch", s!"{specTag spec}:{first}{if h1 then "" else ":stop"}{if h2 then "" else ":collide"}")]
+    ("expected", Json.arr (pairs.map (fun p => vToJson (valOfTop p.1 p.2))).toArray),
+    ("branch", s!"{specTag spec0}:{first}{if ef then "" else ":stop"}{if h2 then "" else ":collide"}{featTag}")]
 
 end Glom.C16.Driver
